@@ -1803,15 +1803,19 @@ fn forward_device_data(
         return ConsumeStatus::FilterCaughtup;
     }
 
+    // An alias stands for one topic. The alias table is keyed by subscription filter, so
+    // aliases can only be used for filters that match a single topic
+    let filter_is_topic = !request.filter.contains(['+', '#']);
     let broker_topic_aliases = &mut connection.broker_topic_aliases;
     let mut topic_alias = broker_topic_aliases
         .as_ref()
+        .filter(|_| filter_is_topic)
         .and_then(|aliases| aliases.get_alias(&request.filter));
 
     let topic_alias_already_exists = topic_alias.is_some();
 
     // if topic alias doesn't exists, try creating new one!
-    if !topic_alias_already_exists {
+    if !topic_alias_already_exists && filter_is_topic {
         topic_alias = broker_topic_aliases
             .as_mut()
             .and_then(|broker_aliases| broker_aliases.set_new_alias(&request.filter))
